@@ -37,6 +37,7 @@ type Program struct {
 	methods  sync.Map // methodKey -> *ssa.Function
 	globals  map[*ssa.Global]int
 	init     *State
+	initMu   sync.Mutex
 	SrcHash  string
 	LoadSecs float64
 	FuncsEncoded sync.Map // name -> instruction count
